@@ -55,6 +55,10 @@ func main() {
 			genProc(os.Args[2], seed, n, os.Args[5])
 		case "recv":
 			genRecv(seed, n, os.Args[5])
+		case "dloop":
+			genDloop(seed, n, os.Args[5])
+		case "enum", "denum":
+			genEnum(os.Args[2], n, os.Args[5])
 		default:
 			gen(os.Args[2], seed, n, os.Args[5])
 		}
@@ -68,6 +72,8 @@ func main() {
 			oracleProc(os.Args[2], os.Args[3], os.Args[4])
 		case "recv":
 			oracleRecv(os.Args[3], os.Args[4])
+		case "dloop":
+			oracleDloop(os.Args[3], os.Args[4])
 		default:
 			oracle(os.Args[2], os.Args[3], os.Args[4])
 		}
@@ -211,8 +217,11 @@ func execOps(stream, in, outp string) {
 	s := newSUT()
 	l := &loopSys{sut: s}
 	pr := &procRunner{}
+	dl := newDloop("EDS")
 	for _, f := range wire.ReadLines(in) {
 		switch stream {
+		case "dloop":
+			out.Line(dl.apply(f))
 		case "loop":
 			out.Line(l.apply(f))
 		case "proc", "dproc":
